@@ -275,6 +275,15 @@ def readCounts (f : List Nat) (n : Nat) : Option (List Int) :=
 /-- was the truncation branch (warning) taken? -/
 def readWarns (f : List Nat) (n : Nat) : Bool := headerLen ≤ f.length && f.length < headerLen + 4 * n
 
+/-- `file_contents[lo:hi]` (bytes past the end of a short file read as zero; the reader raises before using them) -/
+def fileSlice (f : List Nat) (lo hi : Nat) : List Nat := (List.range (hi - lo)).map fun i => f.getD (lo + i) 0
+
+/-- `struct.unpack(fmt, file_contents[lo:hi])[0]` for the numeric formats: the unsigned value / the float32 bit pattern -/
+def Row.unpack (r : Row) (f : List Nat) : Nat := unpackNum r.endian (fileSlice f r.lo r.hi)
+
+/-- bytes of an `s` field with the trailing NULs stripped (`.rstrip('\x00')`) -/
+def stripNul (l : List Nat) : List Nat := (l.reverse.dropWhile (· == 0)).reverse
+
 /-- header fields the reader uses (offsets are proved to be those of the generated table) -/
 def hdrU16 (f : List Nat) (lo : Nat) : Nat := decBE [f.getD lo 0, f.getD (lo + 1) 0]
 def hdrU32 (f : List Nat) (lo : Nat) : Nat := decBE [f.getD lo 0, f.getD (lo + 1) 0, f.getD (lo + 2) 0, f.getD (lo + 3) 0]
